@@ -976,6 +976,7 @@ type result struct {
 	stats    prodStats
 	anomaly  []string
 	nsess    int
+	live     []bool // per session a secret was handed out for: not kicked yet
 	harness  string
 	deviated bool
 }
@@ -1001,6 +1002,9 @@ func run(h []op, check, thorough bool) (r result) {
 	}
 	r.key = w.key()
 	r.nsess = len(w.sessions)
+	for _, s := range w.sessions {
+		r.live = append(r.live, s.live)
+	}
 	r.anomaly = w.anomaly
 	if !check && w.deviates() {
 		// the server's records already contradict the model: judge this state right away (the leaked
@@ -1127,23 +1131,6 @@ func main() {
 	exhausted := true
 	abort := false // a state whose records contradict the model was met: report and stop
 
-	liveOf := func(h []op) []bool {
-		var live []bool
-		// model replay of liveness only (which creations succeeded is known from nsess per prefix, so
-		// recompute from the history with the model)
-		for _, o := range h {
-			switch o.Kind {
-			case opCreate:
-				if modelAuthorized(creds[o.Cred], pathNames[o.Path], worldIPs[o.Px][o.IP], o.Px) {
-					live = append(live, true)
-				}
-			case opKick:
-				live[o.K] = false
-			}
-		}
-		return live
-	}
-
 	// checkStates runs the request product in each new state (fresh replay) in parallel.
 	checkStates := func(sts []state) {
 		results := make([]result, len(sts))
@@ -1226,16 +1213,9 @@ func main() {
 				anomalies[a]++
 			}
 			mu.Unlock()
-			live := liveOf(jobs[i])
-			if len(live) != res.nsess {
-				// the implementation handed out a secret the model did not expect (or vice versa): the
-				// successor alphabet is computed from the real count; unauthorized sessions are then
-				// exercised by the product of this very state
-				live = make([]bool, res.nsess)
-				for k := range live {
-					live[k] = true
-				}
-			}
+			// Kick(k) indexes the sessions a secret was handed out for (also those the model calls
+			// unauthorized: they are exercised by the product of this very state and may be kicked)
+			live := res.live
 			if !seen[res.key] {
 				seen[res.key] = true
 				states++
